@@ -1,3 +1,4 @@
 import CohdlVerif.Model.DriverLoop
--- model driver of property C01 (stub: no model entry points yet)
-def main : IO Unit := CohdlVerif.driverLoop (fun _ => "bad-op")
+import CohdlVerif.Model.CoroDriver
+-- model driver of property C01: validate | reftrace | smtrace  (see Model/CoroDriver.lean)
+def main : IO Unit := CohdlVerif.driverLoop CohdlVerif.C01.handle
